@@ -112,6 +112,9 @@ pub struct ModSpec {
     /// cache/server relative path `<debug leaf>/<ID>/<leaf>.sym` when `has_cv`.
     pub rel: Option<String>,
     pub sym_kind: &'static str,
+    /// Module-relative addresses of functions with unusual unwind records: return addresses
+    /// and instruction pointers are biased towards them.
+    pub hot: Vec<u64>,
 }
 
 impl ModSpec {
@@ -151,6 +154,9 @@ pub struct WorldOpts {
     pub hostile_symbols: bool,
     /// Also arm64-old, mips and the context-only architectures ppc / ppc64 / sparc.
     pub all_archs: bool,
+    /// Expression-evaluator stress: one or two modules and threads, every function carries an
+    /// unusual STACK CFI / STACK WIN program, instruction pointers start inside such functions.
+    pub focus_unwind_expr: bool,
 }
 
 pub struct World {
@@ -162,6 +168,10 @@ pub struct World {
     pub total_stack_bytes: u64,
     pub has_proc_limits: bool,
     pub describe: serde_json::Value,
+}
+
+fn draw_arch(opts: &WorldOpts) -> Arch {
+    [Arch::Amd64, Arch::X86, Arch::Arm64, Arch::Arm, Arch::Amd64, Arch::X86, Arch::Arm64, Arch::Arm, Arch::Arm64Old, Arch::Mips, Arch::Ppc, Arch::Ppc64, Arch::Sparc][ch("dump.arch", if opts.all_archs { 13 } else { 8 }) as usize]
 }
 
 fn module_base(arch: Arch, i: usize) -> u64 {
@@ -183,8 +193,13 @@ const DIRS: [&str; 5] = ["C:\\Program Files\\App\\", "/usr/lib/", "", "D:\\other
 
 /// CFI rules for one function.  `adversarial` adds no-progress, never-reads-memory and
 /// aliased-register programs.
-fn cfi_for(arch: Arch, adversarial: bool) -> (String, Option<String>) {
-    let weird = adversarial && chance("dump.cfi.weird", 1, 4);
+fn cfi_for(arch: Arch, adversarial: bool) -> (String, Option<String>, bool) {
+    let weird = adversarial && (symgen::FORCE_WEIRD.with(|f| f.get()) || chance("dump.cfi.weird", 1, 4));
+    let (a, b) = cfi_for_inner(arch, weird);
+    (a, b, weird)
+}
+
+fn cfi_for_inner(arch: Arch, weird: bool) -> (String, Option<String>) {
     match arch {
         Arch::X86 => {
             if weird {
@@ -265,8 +280,9 @@ fn hostile_u32() -> String {
 }
 
 /// A symbol file whose FUNC / CFI / WIN records cover the module's address range.
-fn module_symbols(arch: Arch, os: OsKind, m: &ModSpec, adversarial: bool) -> Vec<u8> {
+fn module_symbols(arch: Arch, os: OsKind, m: &ModSpec, adversarial: bool) -> (Vec<u8>, Vec<u64>) {
     let mut s = String::new();
+    let mut hot: Vec<u64> = Vec::new();
     let leaf = crate::common::leaf(&m.debug_file);
     s.push_str(&format!("MODULE {} {} {} {}\n", os.name(), arch.name(), m.breakpad_id(), leaf));
     s.push_str("INFO CODE_ID 5EEDC0DE\n");
@@ -295,17 +311,24 @@ fn module_symbols(arch: Arch, os: OsKind, m: &ModSpec, adversarial: bool) -> Vec
             s.push_str(&format!("{:x} {:x} {} 1\n", addr + size / 2, size - size / 2, 200 + i));
         }
         // unwind info: most functions CFI, x86/windows some STACK WIN
-        if arch == Arch::X86 && os == OsKind::Windows && i % 3 == 1 {
+        let force = symgen::FORCE_WEIRD.with(|f| f.get());
+        if arch == Arch::X86 && os == OsKind::Windows && (i % 3 == 1 || (force && i % 2 == 0)) {
             let hostile = adversarial && chance("dump.win.hostile_sizes", 1, 4);
             let (p, sr, l) = if hostile { (hostile_u32(), hostile_u32(), hostile_u32()) } else { (format!("{:x}", params), "4".to_string(), format!("{:x}", 8 * (i % 5))) };
             if i % 2 == 0 {
                 let prog = String::from_utf8(symgen::win_program(adversarial)).unwrap_or_default();
+                if hostile || !(prog.starts_with("$T0 .raSearch =") || prog.starts_with("$T0 $ebp =") || prog.starts_with("$T2 $esp .cbLocals")) {
+                    hot.push(addr);
+                }
                 win.push_str(&format!("STACK WIN 4 {:x} {:x} 3 1 {} {} {} 0 1 {}\n", addr, size, p, sr, l, prog));
             } else {
                 win.push_str(&format!("STACK WIN 0 {:x} {:x} 3 1 {} {} {} 0 0 {}\n", addr, size, p, sr, l, i % 2));
             }
         } else if i % 5 != 4 {
-            let (init, delta) = cfi_for(arch, adversarial);
+            let (init, delta, weird) = cfi_for(arch, adversarial);
+            if weird {
+                hot.push(addr);
+            }
             cfi.push_str(&format!("STACK CFI INIT {:x} {:x} {}\n", addr, size, init));
             if let Some(d) = delta {
                 cfi.push_str(&format!("STACK CFI {:x} {}\n", addr + 4, d));
@@ -315,7 +338,7 @@ fn module_symbols(arch: Arch, os: OsKind, m: &ModSpec, adversarial: bool) -> Vec
     s.push_str(&format!("PUBLIC {:x} 0 public_tail_{}\n", 0x800u64.min(m.size as u64 / 2), leaf.replace(' ', "_")));
     s.push_str(&win);
     s.push_str(&cfi);
-    s.into_bytes()
+    (s.into_bytes(), hot)
 }
 
 struct Regs {
@@ -475,8 +498,16 @@ fn put_word(stack: &mut [u8], off: usize, w: u64, val: u64) {
 const PROC_LIMITS_FULL: &str = "Limit                     Soft Limit           Hard Limit           Units     \nMax cpu time              unlimited            unlimited            seconds   \nMax file size             unlimited            unlimited            bytes     \nMax stack size            8388608              unlimited            bytes     \nMax core file size        0                    unlimited            bytes     \nMax processes             111064               111064               processes \nMax open files            1048576              1048576              files     \nMax nice priority         0                    0                    \nMax realtime timeout      unlimited            unlimited            us        \n";
 
 pub fn gen_world(opts: &WorldOpts) -> World {
-    let arch = [Arch::Amd64, Arch::X86, Arch::Arm64, Arch::Arm, Arch::Amd64, Arch::X86, Arch::Arm64, Arch::Arm, Arch::Arm64Old, Arch::Mips, Arch::Ppc, Arch::Ppc64, Arch::Sparc][ch("dump.arch", if opts.all_archs { 13 } else { 8 }) as usize];
-    let os = [OsKind::Windows, OsKind::Linux, OsKind::MacOs, OsKind::Android, OsKind::Ios][ch("dump.os", 5) as usize];
+    let arch = if opts.focus_unwind_expr && chance("dump.arch.focus_x86", 1, 3) {
+        Arch::X86
+    } else {
+        draw_arch(opts)
+    };
+    // 32-bit x86 dumps are mostly Windows dumps (and STACK WIN records only exist there)
+    let mut os = [OsKind::Windows, OsKind::Linux, OsKind::MacOs, OsKind::Android, OsKind::Ios, OsKind::Windows, OsKind::Windows, OsKind::Windows][ch("dump.os", if arch == Arch::X86 { 8 } else { 5 }) as usize];
+    if opts.focus_unwind_expr && arch == Arch::X86 {
+        os = OsKind::Windows;
+    }
     let w = arch.word();
     // big-endian dumps: natural for ppc / sparc / mips, occasionally for the others
     let be = opts.all_archs
@@ -491,8 +522,12 @@ pub fn gen_world(opts: &WorldOpts) -> World {
     let e = if be { Endian::Big } else { Endian::Little };
     let adv = opts.adversarial;
 
+    symgen::FORCE_WEIRD.with(|f| f.set(opts.focus_unwind_expr));
+    if opts.focus_unwind_expr {
+        probe("e4.focus_unwind_expr");
+    }
     // modules
-    let nmods = 1 + ch("dump.nmods", 6) as usize;
+    let nmods = if opts.focus_unwind_expr { 1 + ch("dump.nmods.focus", 2) as usize } else { 1 + ch("dump.nmods", 6) as usize };
     let mut modules: Vec<ModSpec> = Vec::new();
     for i in 0..nmods {
         let leaf = LEAVES[ch("dump.mod.leaf", LEAVES.len() as u32) as usize];
@@ -511,6 +546,7 @@ pub fn gen_world(opts: &WorldOpts) -> World {
             sym: None,
             rel: None,
             sym_kind: "none",
+            hot: Vec::new(),
         };
         if has_cv {
             let l = crate::common::leaf(&m.debug_file).to_string();
@@ -521,7 +557,9 @@ pub fn gen_world(opts: &WorldOpts) -> World {
         let kind = ch("dump.sym.kind", 8);
         match kind {
             0..=4 => {
-                m.sym = Some(module_symbols(arch, os, &m, adv));
+                let (b, hot) = module_symbols(arch, os, &m, adv);
+                m.sym = Some(b);
+                m.hot = hot;
                 m.sym_kind = "consistent";
             }
             5 => {
@@ -529,7 +567,8 @@ pub fn gen_world(opts: &WorldOpts) -> World {
                 m.sym_kind = "absent";
             }
             6 if opts.hostile_symbols => {
-                let mut b = module_symbols(arch, os, &m, adv);
+                let (mut b, hot) = module_symbols(arch, os, &m, adv);
+                m.hot = hot;
                 symgen::corrupt(&mut b);
                 m.sym = Some(b);
                 m.sym_kind = "corrupted";
@@ -543,7 +582,9 @@ pub fn gen_world(opts: &WorldOpts) -> World {
                 m.sym_kind = "random grammar";
             }
             _ => {
-                m.sym = Some(module_symbols(arch, os, &m, adv));
+                let (b, hot) = module_symbols(arch, os, &m, adv);
+                m.sym = Some(b);
+                m.hot = hot;
                 m.sym_kind = "consistent";
             }
         }
@@ -563,7 +604,9 @@ pub fn gen_world(opts: &WorldOpts) -> World {
     }
 
     // threads
-    let nthreads = if opts.many_threads && chance("dump.many_threads", 1, 12) {
+    let nthreads = if opts.focus_unwind_expr {
+        1 + ch("dump.nthreads.focus", 2) as usize
+    } else if opts.many_threads && chance("dump.many_threads", 1, 12) {
         probe("e4.many_threads");
         31 + ch("dump.nthreads.many", 10) as usize
     } else {
@@ -588,11 +631,20 @@ pub fn gen_world(opts: &WorldOpts) -> World {
         let seed = ch("dump.thread.seed", u32::MAX) as u64;
         let mut rng = Xoshiro::new(seed);
         let sbase = stack_base(arch, t);
-        let slen = [0x200usize, 0x80, 0x1000, 0x40, 0x2000, 0][ch("dump.stack.len", if adv { 6 } else { 5 }) as usize];
+        let mut slen = [0x200usize, 0x80, 0x1000, 0x40, 0x2000, 0][ch("dump.stack.len", if adv { 6 } else { 5 }) as usize];
+        if nthreads > 8 {
+            // keep the worst case (every thread walked to its cap, rendered four times) well
+            // below the harness's hard allocation cap
+            slen = slen.min(0x200);
+        }
         let mut stack = vec![0u8; slen];
         let nwords = slen / w as usize;
+        let focus = opts.focus_unwind_expr;
         let pick_ret = |rng: &mut Xoshiro| -> u64 {
             let m = &modules[rng.below(modules.len() as u32) as usize];
+            if !m.hot.is_empty() && (focus || rng.below(3) == 0) {
+                return m.base.wrapping_add(m.hot[rng.below(m.hot.len() as u32) as usize] + 2 + (rng.below(8) as u64 & !1));
+            }
             m.base.wrapping_add(0x1000 + (rng.below((m.size.saturating_sub(0x1000)).max(1)) as u64 & !3) + 2)
         };
         // random but plausible words
@@ -878,11 +930,27 @@ pub fn gen_world(opts: &WorldOpts) -> World {
             synth = synth.set_linux_proc_limits(text.as_bytes());
         }
         if streams & 64 != 0 {
+            // key/value text streams; keys may repeat with different values (several CPU blocks,
+            // duplicated lines): whatever the reader picks must not depend on anything but the text
+            let mut lsb = String::from("DISTRIB_ID=\"Ubuntu\"\nDISTRIB_RELEASE=22.04\nDISTRIB_CODENAME=jammy\nDISTRIB_DESCRIPTION=\"Ubuntu 22.04\"\n");
+            if chance("dump.lsb.dups", 1, 3) {
+                lsb.push_str("DISTRIB_ID=Debian\nID=arch\nDISTRIB_RELEASE=12\nVERSION_ID=\"rolling\"\nPRETTY_NAME=Other\n");
+            }
+            let ncpu = 1 + ch("dump.cpuinfo.blocks", 4);
+            let mut cpuinfo = String::new();
+            for c in 0..ncpu {
+                let mc = if chance("dump.cpuinfo.same_microcode", 1, 2) { 0xde } else { 0xde + 12 * c as u64 };
+                cpuinfo.push_str(&format!("processor : {c}\nmicrocode : {:#x}\nmodel name : Sim CPU {c}\n\n", mc));
+            }
+            let mut status = String::from("Name:\tapp\nPid:\t3747\nUid:\t1000\n");
+            if chance("dump.status.dups", 1, 3) {
+                status.push_str("Pid:\t4242\nName:\tother\nPid:\tnotanumber\n");
+            }
             synth = synth
-                .set_linux_lsb_release(b"DISTRIB_ID=\"Ubuntu\"\nDISTRIB_RELEASE=22.04\nDISTRIB_CODENAME=jammy\nDISTRIB_DESCRIPTION=\"Ubuntu 22.04\"\n")
-                .set_linux_cpu_info(b"processor : 0\nmicrocode : 0x1e34a6789\nmodel name : Sim CPU\n\nprocessor : 1\n")
-                .set_linux_proc_status(b"Name:\tapp\nPid:\t3747\nUid:\t1000\n")
-                .set_linux_environ(b"HOME=/home/u\0PATH=/bin\0");
+                .set_linux_lsb_release(lsb.as_bytes())
+                .set_linux_cpu_info(cpuinfo.as_bytes())
+                .set_linux_proc_status(status.as_bytes())
+                .set_linux_environ(b"HOME=/home/u\0PATH=/bin\0HOME=/root\0");
         }
         if streams & 128 != 0 {
             let mut maps = String::new();
